@@ -188,11 +188,11 @@ func c11Short(c *fw.Ctx, i int) {
 func c11Long(c *fw.Ctx, i int) {
 	r := c.R
 	p := &codecs.VP8Payloader{EnablePictureID: true}
-	n := 33000
+	n := 66000 // two wraps of the 15-bit picture id
 	for k := 0; k < n; k++ {
 		mtu := 6
 		fl := 1
-		interesting := k < 3 || (k >= 126 && k <= 130) || k >= 32766
+		interesting := k < 3 || (k >= 126 && k <= 130) || (k >= 32766 && k <= 32770) || k >= 65534
 		if interesting || r.Chance(1, 200) {
 			mtu = r.Pick(5, 6, 7, 20)
 			fl = r.Range(1, 30)
@@ -202,7 +202,7 @@ func c11Long(c *fw.Ctx, i int) {
 		}
 	}
 	c.Count("instances_crossing_128_and_the_15bit_wrap", 1)
-	c.Sample(map[string]any{"picture_ids": true, "frames_on_instance": n, "crosses": "0, 127->128, 32767->0"})
+	c.Sample(map[string]any{"picture_ids": true, "frames_on_instance": n, "crosses": "0, 127->128, 32767->0 twice"})
 }
 
 var c11Vals16 = []uint16{0, 1, 63, 127, 128, 0x3FFF, 0x7FFF}
